@@ -108,27 +108,36 @@ def run(check, tier, seed, replay=None, keep=False):
             sum(e["n"] for e in agg["kfn"] if pid in e["props"])
         fresh = [r for r in mine if not is_known(r.get("kf", "none"))]
         # confirm fresh rejections by re-executing just that input (a rejection is reported only if it repeats)
-        reported = 0
         seen = set()
+        cand = []
         for r in fresh:
             key = (r.get("what"), _event_key(r))
             if key in seen:
                 continue
             seen.add(key)
-            if reported >= 20:
+            cand.append(r)
+            if len(cand) >= 20:
                 break
-            confirmed = True
-            if not replay:
-                rj = check.replay_jobs(r)
-                if rj:
-                    a2 = vlib.run_jobs(rj, keep=False)
-                    confirmed = any(pid in x.get("props", []) for x in a2["rej"])
-                    if not confirmed:
-                        raise InfraError("rejection did not repeat on re-execution: %s" % json.dumps(r)[:800])
+        # a rejection is reported only if it repeats: all candidates are re-executed in parallel
+        confirmed = {}
+        if not replay and cand:
+            rjobs = []
+            for k, r in enumerate(cand):
+                for j in (check.replay_jobs(r) or []):
+                    j.name = "replay%d-%s" % (k, j.name)
+                    j.sample = 0
+                    rjobs.append(j)
+            if rjobs:
+                a2 = vlib.run_jobs(rjobs, keep=False)
+                for x in a2["rej"]:
+                    if pid in x.get("props", []):
+                        confirmed[int(x["job"].split("-")[0][6:])] = True
+        for k, r in enumerate(cand):
+            if not replay and check.replay_jobs(r) and not confirmed.get(k):
+                raise InfraError("rejection did not repeat on re-execution: %s" % json.dumps(r)[:800])
             p = vlib.write_replay(pid, {"kind": "trace", "property": pid, "rejection": r,
                                         "how": "bin/check %s --replay <this file>" % pid})
             violations.append((p, check.describe(r)))
-            reported += 1
         cov["rejected_for_this_property"] = total_mine
         cov["known_finding_hits"] = known_hits
         if not cov["samples"]:
